@@ -19,12 +19,10 @@
 from __future__ import annotations
 
 import json
-import multiprocessing
 import os
 import re
 import sys
 import time
-from concurrent.futures import ProcessPoolExecutor
 
 from harness.vlib.core import Ctx, ToolFailure
 
@@ -35,6 +33,13 @@ MODEL_FILES = ["MypyVerif/Model/ErrPos.lean", "MypyVerif/Model/Errors.lean", "My
                "MypyVerif/Proofs/ErrorsDisplay.lean"]
 DRIVER = "Driver/C13.lean"
 NOTE_MARK = ": note:"
+
+
+class _RunTimeout(BaseException):
+    """raised by the SIGALRM handler of a worker process (harness/c13/worker.py) around one tool run"""
+
+
+_ALARM = False       # set in worker processes: `tool()` arms a 120 s alarm around every run
 
 
 # =============================================================================== (a) synthetic streams
@@ -215,7 +220,8 @@ def _pack(r: dict) -> dict:
     main_file = rec.files.get(corpus.MAIN)
     return {"stdout": r["stdout"], "stderr": r["stderr"], "status": r["status"], "events": rec.events,
             "outputs": rec.outputs, "blockers": rec.blockers, "main_file": main_file,
-            "tuples": [list(t) for t in rec.raw_tuples], "unsupported": rec.unsupported}
+            "tuples": [list(t) for t in rec.raw_tuples], "unsupported": rec.unsupported,
+            "texts": {str(i): t for t, i in rec.msgs.items()}}
 
 
 def _main_output(run: dict) -> list:
@@ -247,7 +253,14 @@ def program_task(args) -> dict:
     def tool(src_, flags, inline=()):
         # one incremental cache per set of global flags (they are part of every module's cache key)
         key = "cache-" + re.sub(r"[^a-z0-9]+", "_", " ".join(flags))[:80]
-        return _pack(corpus.run_tool(workdir, os.path.join(workdir, key), src_, flags, inline))
+        if _ALARM:
+            import signal
+            signal.alarm(120)
+        try:
+            return _pack(corpus.run_tool(workdir, os.path.join(workdir, key), src_, flags, inline))
+        finally:
+            if _ALARM:
+                signal.alarm(0)
 
     try:
         base = tool(src, base_flags)
@@ -438,12 +451,15 @@ def oracle_ignore_delta(base: dict, var: dict, annots: dict[int, list[str]]) -> 
         elif not ok and t[0] not in removed_err_lines:
             probs.append({"kind": "note-removed", "tuple": t, "only_once": is_once,
                           "text": "note %s disappeared although neither it nor an error on its line matches" % json.dumps(t)})
+    ok_gone = [g for g in gone if not any(p["tuple"] is g for p in probs)]
     for t, k in zip(out1, k1):
         if k in s0:
             continue
         if t[0] not in annots or t[5][0] not in ("nc", "cc", "ui", "iw"):
             is_once = t[4] == "n" and (t[5][0] == "sl" or (t[5][0] == "u" and t[5][1] in once))
-            probs.append({"kind": "new-diagnostic", "tuple": t, "only_once": is_once,
+            twin = any(g[0] == t[0] and g[4] == t[4] and g[5] == t[5] for g in ok_gone) and \
+                len(spans.get((t[0], t[1], t[4], t[5][1] if t[5][0] == "u" else -1), [])) >= 1
+            probs.append({"kind": "new-diagnostic", "tuple": t, "only_once": is_once, "twin_of_suppressed": twin,
                           "text": "new diagnostic %s is not a message about an added ignore" % json.dumps(t)})
     kept0 = [k for k in k0 if k in s1]
     kept1 = [k for k in k1 if k in s0]
@@ -452,13 +468,36 @@ def oracle_ignore_delta(base: dict, var: dict, annots: dict[int, list[str]]) -> 
     return probs
 
 
-def classify_delta(probs: list[dict]) -> str:
-    """`only-once-note-moved`: every difference is an only_once note (reported with only_once=True — observed in
-    the recorded stream — or the sink's own `See …#code-X` link note) that now shows up at the next place it is
-    reported because the diagnostic it used to follow is ignored."""
+def _same_place(a: list, b: list) -> bool:
+    return a[:5] == b[:5] and a[6] == b[6]
+
+
+def classify_delta(probs: list[dict], texts: dict[str, str] | None = None) -> str:
+    """Narrow classes of ways in which the real tool is *not* exact (each is a known finding with its own entry):
+    `only-once-note-moved`       every difference is an only_once note (reported with only_once=True — observed in
+                                 the recorded stream — or the sink's own `See …#code-X` link note) that now shows up
+                                 at the next place it is reported because the diagnostic it used to follow is ignored;
+    `did-you-mean-dropped`       an error that the added ignore does *not* suppress (its code is not listed) loses its
+                                 `; did you mean …?` suffix: semanal builds the simple message for any line that has a
+                                 `# type: ignore`, whatever its codes;
+    `deduplicated-twin-unhidden` the suppressed error had a twin with the same text on the same line (removed by
+                                 `remove_duplicates`) whose code / origin span the ignore does not match: the twin
+                                 is displayed now."""
+    texts = texts or {}
     if all(p["only_once"] and p["kind"] in ("new-diagnostic", "note-removed", "unrelated-removed") and p["tuple"][4] == "n" for p in probs) \
             and any(p["kind"] == "new-diagnostic" for p in probs):
         return "only-once-note-moved"
+    gone = [p["tuple"] for p in probs if p["kind"] in ("wrong-code-suppressed", "unrelated-removed", "note-removed")]
+    new = [p["tuple"] for p in probs if p["kind"] == "new-diagnostic"]
+    if gone and len(gone) == len(new) and len(gone) + len(new) == len(probs):
+        def txt(t):
+            return texts.get(str(t[5][1]), "") if t[5][0] == "u" else ""
+        if all(any(_same_place(g, n) and txt(g).startswith(txt(n) + "; did you mean ") and txt(n) for n in new) for g in gone):
+            return "did-you-mean-dropped"
+    if new and len(new) == len(probs):
+        twins = [p for p in probs if p.get("twin_of_suppressed")]
+        if len(twins) == len(probs):
+            return "deduplicated-twin-unhidden"
     return probs[0]["kind"]
 
 
@@ -473,18 +512,55 @@ def real_runs(ctx: Ctx) -> None:
     tasks = []
     for i, (name, src) in enumerate(progs):
         tasks.append((name, src, ctx.rng.getrandbits(48), os.path.join(ctx.tmp, "w%d" % (i % nproc)), nvar, ctx.pick(0.04, 0.15)))
-    # one worker per scratch directory (its own incremental cache): chunk by directory
-    chunks = [[t for t in tasks if t[3].endswith("w%d" % k)] for k in range(nproc)]
-    with ProcessPoolExecutor(max_workers=nproc, mp_context=multiprocessing.get_context("fork")) as ex:
-        results_chunks = list(ex.map(_run_chunk, chunks))
+    # one worker lane per scratch directory (its own incremental caches); every lane runs its programs in
+    # separate worker processes (harness/c13/worker.py) that are restarted when one dies
+    lanes = [[t for t in tasks if t[3].endswith("w%d" % k)] for k in range(nproc)]
+    from concurrent.futures import ThreadPoolExecutor
+    with ThreadPoolExecutor(max_workers=nproc) as ex:
+        results_chunks = list(ex.map(lambda kl: _run_lane(ctx.tmp, kl[0], kl[1]), enumerate(lanes)))
     ctx.coverage["real_runs_wall_s"] = round(time.time() - t0, 1)
     by_name = {r["name"]: r for ch in results_chunks for r in ch}
     results = [by_name[t[0]] for t in tasks if t[0] in by_name]
     judge_runs(ctx, results)
 
 
-def _run_chunk(chunk):
-    return [program_task(a) for a in chunk]
+def _run_lane(tmp: str, k: int, lane: list) -> list[dict]:
+    """Run the lane's programs in worker processes of at most 60 programs; a worker that dies costs only the
+    program it was working on (recorded as crashed, not judged)."""
+    import subprocess
+    from harness.vlib.core import PY, VERIF, repo_env
+    done: list[dict] = []
+    todo = list(lane)
+    rounds = 0
+    while todo:
+        rounds += 1
+        batch, rest = todo[:60], todo[60:]
+        tf = os.path.join(tmp, "lane%d-%d.tasks.json" % (k, rounds))
+        of = os.path.join(tmp, "lane%d-%d.out.jsonl" % (k, rounds))
+        with open(tf, "w") as f:
+            json.dump(batch, f)
+        open(of, "w").close()
+        try:
+            p = subprocess.run([PY, "-m", "harness.c13.worker", tf, of], cwd=VERIF, env=repo_env(),
+                               capture_output=True, text=True, timeout=120 * 8 * len(batch) + 600)
+            rc, err = p.returncode, p.stderr[-300:]
+        except subprocess.TimeoutExpired:
+            rc, err = -1, "worker timed out"
+        got = []
+        for line in open(of):
+            try:
+                got.append(json.loads(line))
+            except ValueError:
+                break                                  # a half-written last line
+        done += got
+        if len(got) < len(batch):
+            culprit = batch[len(got)]
+            done.append({"name": culprit[0], "src": culprit[1], "variants": [],
+                         "crash": "worker process died (exit %s) %s" % (rc, err)})
+            todo = batch[len(got) + 1:] + rest
+        else:
+            todo = rest
+    return done
 
 
 def judge_runs(ctx: Ctx, results: list[dict]) -> None:
@@ -543,6 +619,7 @@ def judge_runs(ctx: Ctx, results: list[dict]) -> None:
                [("var", vi, v["run"], v["src"] + "".join("\n# mypy: " + i for i in v["inline"]), v["flags"])
                 for vi, v in enumerate(r["variants"]) if "run" in v]
         replay_ok: dict = {}
+        ctx.dist("recorded_stream_vs_Quiet", quiet_status(base["events"]))
         for tag, vi, run, src, flags in runs:
             # -------- tie (c): recorded stream through the model = the build's file_messages
             mobs = [sink.canon_model_obs(o) for o in model[("replay", ri, vi)]]
@@ -603,7 +680,7 @@ def judge_runs(ctx: Ctx, results: list[dict]) -> None:
                 probs = oracle_ignore_delta(base, v, annots)
                 ctx.case(("meta", r["name"], v["annots"]))
                 if probs:
-                    report_capped(ctx, {"class": "ignore-not-exact", "detail": classify_delta(probs)},
+                    report_capped(ctx, {"class": "ignore-not-exact", "detail": classify_delta(probs, {**base["texts"], **run["texts"]})},
                                "adding `# type: ignore` changed the output of %s by more/less than the matching diagnostics: %s" % (r["name"], probs[0]["text"]),
                                {"kind": "metamorphic", "name": r["name"], "src": r["src"], "flags": r["flags"], "annots": v["annots"],
                                 "problems": [p["text"] for p in probs[:6]], "before": out0, "after": out1})
@@ -629,7 +706,10 @@ def judge_runs(ctx: Ctx, results: list[dict]) -> None:
                 if out1 != want:
                     extra = [t for t in out1 if key5(t) not in {key5(x) for x in want}]
                     missing = [t for t in want if key5(t) not in {key5(x) for x in out1}]
-                    report_capped(ctx, {"class": "disable-not-exact", "code": v["code"]},
+                    once_ids = {ev[1][7] for rr in (base, run) for ev in rr["events"] if ev[0] == "A" and ev[1][10]}
+                    moved = all(t[4] == "n" and (t[5][0] == "sl" or (t[5][0] == "u" and t[5][1] in once_ids)) for t in extra + missing)
+                    report_capped(ctx, {"class": "disable-not-exact", "code": v["code"],
+                                        "detail": "only-once-note-moved" if moved else "other-diagnostic-changed"},
                                "--disable-error-code %s changed other diagnostics of %s (extra %s, missing %s)" % (v["code"], r["name"], json.dumps(extra[:2]), json.dumps(missing[:2])),
                                {"kind": "metamorphic", "name": r["name"], "src": r["src"], "flags": v["flags"], "base_flags": r["flags"],
                                 "inline": v["inline"], "before": out0, "after": out1})
@@ -658,6 +738,25 @@ def judge_runs(ctx: Ctx, results: list[dict]) -> None:
             ctx.sample({"program": r["name"], "flags": r["flags"], "stdout": r["base"]["stdout"][:300],
                         "variants": [{k: v.get(k) for k in ("kind", "annots", "code", "modes")} for v in r["variants"][:3]]})
             break
+
+
+def quiet_status(events: list[list]) -> str:
+    """Which hypothesis of `ignore_exact` (Props/C13 `Quiet`) a recorded stream satisfies."""
+    once: list[int] = []
+    links = thr = False
+    for ev in events:
+        if ev[0] == "F":
+            links = links or bool(ev[4])
+            thr = thr or ev[5] >= 0
+        elif ev[0] == "A" and ev[1][10]:
+            once.append(ev[1][7])
+    if links:
+        return "error-code links on"
+    if thr:
+        return "many-errors threshold on"
+    if len(set(once)) != len(once):
+        return "only_once collision (F13 corner)"
+    return "Quiet holds"
 
 
 def report_capped(ctx: Ctx, observed: dict, what: str, replay, cap: int = 4) -> None:
